@@ -58,6 +58,8 @@ structure Cfg where
   ppidGuarded : Bool
   /-- `parent()` returns None for the lowest listed PID before anything else -/
   lowestStop : Bool
+  /-- `_raise_if_pid_reused()` also raises NoSuchProcess when `self._gone` is set (after the reused test) -/
+  goneRaises : Bool
 deriving Repr
 
 /-! ## World -/
@@ -123,12 +125,14 @@ def isRunning (look : Look) (me : Caller) : Caller × Bool :=
       else ({ me with gone := true, reused := true }, false)       -- `_pid_reused = True`; raise NSP → `_gone = True`
 
 /-- `Process._raise_if_pid_reused()`: the Bool says "raises NoSuchProcess".
-    `if self._pid_reused or (not self.is_running() and self._pid_reused)` -/
-def raiseIfPidReused (look : Look) (me : Caller) : Caller × Bool :=
+    `if self._pid_reused or (not self.is_running() and self._pid_reused): raise …`
+    and then, when the fact `goneRaises` holds, `if self._gone: raise …`. -/
+def raiseIfPidReused (goneRaises : Bool) (look : Look) (me : Caller) : Caller × Bool :=
   if me.reused then (me, true)
   else
     let r := isRunning look me
-    (r.1, !r.2 && r.1.reused)
+    if !r.2 && r.1.reused then (r.1, true)
+    else (r.1, goneRaises && r.1.gone)
 
 /-! ## children() -/
 
@@ -170,7 +174,7 @@ def usedMap (c : Cfg) (root : Nat) (pm : PpidMap) : PpidMap :=
     examined at most once, so a function covers every interleaving of vanishing processes). -/
 def children (c : Cfg) (me : Caller) (recursive : Bool) (look0 : Look) (pm : PpidMap) (look : Look) :
     Caller × Out (List Nat) :=
-  let g := if c.childrenGuarded then raiseIfPidReused look0 me else (me, false)
+  let g := if c.childrenGuarded then raiseIfPidReused c.goneRaises look0 me else (me, false)
   if g.2 then (g.1, .nsp me.pid)
   else
     let pm' := usedMap c me.pid pm
@@ -205,7 +209,7 @@ def callerOf (r : Row) : Caller := ⟨r.pid, r.start, false, false⟩
     `parent = Process(ppid)`, create-time test, NoSuchProcess → None. -/
 def parentCore (c : Cfg) (T : Table) (me : Caller) : Caller × Out (Option Row) :=
   -- ppid(): `_raise_if_pid_reused()` then `self._proc.ppid()`
-  let g := if c.ppidGuarded then raiseIfPidReused (lookOf T) me else (me, false)
+  let g := if c.ppidGuarded then raiseIfPidReused c.goneRaises (lookOf T) me else (me, false)
   if g.2 then (g.1, .nsp me.pid)
   else
     match T.find me.pid with
